@@ -99,7 +99,7 @@ func paramsRun(r *ev.Run, changes []paramproposal.ParamChange, pools [][2]int64)
 			desc := fmt.Sprintf("%s/%s=%s with vesting pool aaa=%d bbb=%d", ch.Subspace, ch.Key, ch.Value, pool[0], pool[1])
 			if pan != nil {
 				kind := "other"
-				if strings.Contains(ch.Value, `"aaa"`) && strings.Count(ch.Value, `"aaa"`) > 1 {
+				if strings.Count(ch.Value, `"aaa"`) > 1 || strings.Count(ch.Value, `"bbb"`) > 1 {
 					kind = "duplicate-reward-denomination"
 				}
 				r.Violation("C15:block-processing-panics-after-accepted-parameter-change/"+ch.Subspace+"."+ch.Key+"/"+kind, fmt.Sprintf("%s: %v", desc, pan), map[string]interface{}{"engine": "c15-params", "change": ch, "pool": pool})
